@@ -239,6 +239,11 @@ let spec_route cls (ms : meth list) verb path (status, meth, fields) : string op
       (* C02 precedence: the method owns a matching binding that no other method's matching binding beats *)
       let mine = L.filter_map (fun b -> match matches false b with Some (t, _) -> Some t | None -> None) owned in
       let others = L.filter_map (fun b -> if b.owner <> meth then (match matches true b with Some (t, _) -> Some t | None -> None) else None) bs in
+      (* the property's premise: every matching rule's captures convert to their fields' types (a rule
+         whose capture does not convert cannot be served, so it cannot win either) *)
+      let allconv = L.for_all (fun b -> match matches true b with
+          | Some (_, caps) -> L.for_all (fun (fp, txt) -> okconv fp txt) caps | None -> true) bs in
+      if not allconv then None else
       if L.exists (fun a -> not (L.exists (fun o -> Template.beats o.Template.t_segs a.Template.t_segs) others)) mine then None
       else Some (Printf.sprintf "dispatched to %s although another method spells a segment of %S literally where %s has a wildcard" meth path meth)
     end
